@@ -2648,6 +2648,9 @@ def fixup_pool_strides(op: Operation, arch, nng):
     to (1, 1) and padding can be changed to VALID, so the strides are within the limits for the NPU."""
     if op.type in (Op.AvgPool, Op.MaxPool, Op.QuantizedAvgPool, Op.QuantizedMaxPool):
         ifm, _ = op.get_ifm_ofm()
+        if len(ifm.shape) != 4:
+            # not a NHWC feature map: the supported operator check places the pooling on the CPU
+            return op
         kernel_w, kernel_h = op.get_kernel_size()
         stride_w, stride_h = op.get_kernel_stride()
         if kernel_w == stride_w == ifm.shape[2] and kernel_h == stride_h == ifm.shape[1]:
